@@ -404,7 +404,7 @@ func Yield(site int32) {
 	if !s.active || s.inSample {
 		return
 	}
-	yieldKind(site, kindOf(site))
+	yieldKind(site, kindOf(site), true)
 }
 
 // HarnessYield is a scheduling point issued by harness code (operation
@@ -415,7 +415,7 @@ func HarnessYield(site int32) {
 	if !s.active || s.inSample {
 		return
 	}
-	yieldKind(site, KindOp)
+	yieldKind(site, KindOp, true)
 }
 
 // OpDone tells the scheduler that the running task completed one operation.
@@ -439,11 +439,11 @@ func OpDone() {
 			wakeStalled()
 		}
 	}
-	yieldKind(-2, KindOp)
+	yieldKind(-2, KindOp, false)
 }
 
 //go:norace
-func yieldKind(site int32, kind uint8) {
+func yieldKind(site int32, kind uint8, allowFault bool) {
 	me := s.cur
 	s.step++
 	s.progress++
@@ -456,7 +456,7 @@ func yieldKind(site int32, kind uint8) {
 	// faults
 	for i := range s.faults {
 		f := &s.faults[i]
-		if f.Task == me && f.Yield == y && s.noPreempt[me] == 0 {
+		if allowFault && f.Task == me && f.Yield == y && s.noPreempt[me] == 0 {
 			switch f.Kind {
 			case FaultAbort:
 				logEv(EvAbort, me, -1, site)
